@@ -107,10 +107,19 @@ class IndicatorNumberTasksAssigned(Indicator):
         super().__init__(**data)
 
         self.name = f"Nb Tasks Assigned ({self.resource.name})"
-        # this list contains
+        # the tasks of a cumulative worker are processed by its workers
+        if isinstance(self.resource, CumulativeWorker):
+            workers = self.resource._cumulative_workers
+        else:
+            workers = [self.resource]
+        starts_by_task = {}
+        for worker in workers:
+            for task, (start, end) in worker._busy_intervals.items():
+                starts_by_task.setdefault(task, []).append(start)
+        # this list contains 1 for each task processed by one worker at least
         scheduled_tasks = [
-            z3.If(start > -1, 1, 0)
-            for start, end in self.resource._busy_intervals.values()
+            z3.If(z3.Or([start > -1 for start in starts]), 1, 0)
+            for starts in starts_by_task.values()
         ]
 
         expression = z3.Sum(scheduled_tasks)
